@@ -612,3 +612,47 @@ def shared_default_mutations(cls, fn, names=None):
         if isinstance(x, ast.Subscript) and isinstance(x.ctx, (ast.Store, ast.Del)) and is_shared(x.value, aliases):
             bad.append(x)
     return bad
+
+
+ONE_SHOT_CALLS = ("map", "filter", "zip", "iter", "reversed", "enumerate", "itertools.chain", "chain", "six.moves.map", "six.moves.filter", "six.moves.zip")
+
+
+def module_level_one_shots(mod):
+    """Module-level names bound to a one-shot iterator (map / filter / zip / generator expression on Python 3) and read inside a function: the first
+    call drains them, every later call sees an empty sequence.  Returns [(defining statement, first use inside a function)]."""
+    from .model import call_name, FUNC_TYPES as _FT
+    out = []
+    for st in mod.tree.body:
+        if isinstance(st, ast.Assign) and len(st.targets) == 1 and isinstance(st.targets[0], ast.Name):
+            v = st.value
+            if isinstance(v, ast.GeneratorExp) or (isinstance(v, ast.Call) and call_name(v) in ONE_SHOT_CALLS):
+                nm = st.targets[0].id
+                uses = [x for f in ast.walk(mod.tree) if isinstance(f, _FT + (ast.Lambda,)) for x in ast.walk(f)
+                        if isinstance(x, ast.Name) and x.id == nm and isinstance(x.ctx, ast.Load)]
+                if uses:
+                    out.append((st, uses[0]))
+    return out
+
+
+def check_no_module_level_one_shots(cx, mods, what):
+    """Generic cross-reference rule (expected count zero; liveness by an embedded positive example that must match on every run)."""
+    class _Lite(object):
+        pass
+    lite = _Lite()
+    lite.tree = ast.parse("KEYS = filter(None, ['a'])\ndef f():\n    return [k for k in KEYS]\n")
+    if len(module_level_one_shots(lite)) != 1:
+        cx.error("the embedded positive example of the one-shot-iterator query no longer matches")
+        return
+    for m in mods:
+        hits = module_level_one_shots(m)
+        if hits:
+            for st, use in hits:
+                cx.bad(st, "%s: a module-level constant read by functions can be iterated again on every call (map / filter / zip objects and generator expressions are "
+                           "empty after the first pass)" % what, construct=short_(st))
+        else:
+            cx.ok(m.tree.body[0] if m.tree.body else None, "%s: no module-level one-shot iterator is read inside a function of %s" % (what, m.name), construct=m.name)
+
+
+def short_(n, k=90):
+    from .model import short
+    return short(n, k)
